@@ -155,6 +155,11 @@ type histGen struct {
 	lastRes    abci.ResponseDeliverTx
 	// governance campaign: a param-changing proposal that all validators vote for
 	campID    uint64
+	// knobs for directed histories: how often a campaign starts (1 in campEvery blocks), which
+	// parameter kinds, how often the proposal carries a failing second message, long block times
+	campEvery, campFailEvery int
+	campKinds                []int
+	slowBlocks               bool
 	campVoted map[int]bool
 	campKind  string
 	special   map[int64]string   // height -> what special thing happened in that block
@@ -257,6 +262,9 @@ func (g *histGen) block() {
 	case 2:
 		opts.Dt = time.Duration(rng.Intn(30)+1) * time.Hour
 	}
+	if g.slowBlocks && rng.Intn(3) > 0 {
+		opts.Dt = time.Duration(rng.Intn(12)+6) * time.Second
+	}
 	opts.Proposer, opts.HasProp = rng.Intn(len(n.Vals)), true
 	// absence / return of a validator, double-sign evidence
 	if len(n.Vals) > 1 {
@@ -323,14 +331,22 @@ func (g *histGen) campaign() {
 		g.special = map[int64]string{}
 	}
 	if g.campID == 0 {
-		if rng.Intn(12) > 0 {
+		every := 12
+		if g.campEvery > 0 {
+			every = g.campEvery
+		}
+		if rng.Intn(every) > 0 {
 			return
 		}
 		a := g.acct()
 		authority := vn.ModuleAddr("gov").String()
 		var msg sdk.Msg
 		kind := ""
-		switch rng.Intn(7) {
+		pick := rng.Intn(7)
+		if len(g.campKinds) > 0 {
+			pick = g.campKinds[rng.Intn(len(g.campKinds))]
+		}
+		switch pick {
 		case 0:
 			p := n.App.EvmKeeper.GetParams(n.Ctx())
 			p.AllowUnprotectedTxs = !p.AllowUnprotectedTxs
@@ -384,7 +400,18 @@ func (g *histGen) campaign() {
 			p.ElasticityMultiplier = uint32(1 + rng.Intn(4))
 			msg, kind = &feemarkettypes.MsgUpdateParams{Authority: authority, Params: p}, "feemarket.elasticity"
 		}
-		sp, err := govv1.NewMsgSubmitProposal([]sdk.Msg{msg}, sdk.NewCoins(sdk.NewCoin(vn.Denom, sdkmath.NewIntWithDecimal(10, 18))), a.Addr.String(), "", kind, "verif")
+		msgs := []sdk.Msg{msg}
+		failEvery := 4
+		if g.campFailEvery > 0 {
+			failEvery = g.campFailEvery
+		}
+		if rng.Intn(failEvery) == 0 {
+			// a second message that cannot succeed: the proposal passes the vote, executes the
+			// parameter change, fails, and everything it wrote is rolled back (status FAILED)
+			msgs = append(msgs, &banktypes.MsgSend{FromAddress: authority, ToAddress: a.Addr.String(), Amount: sdk.NewCoins(sdk.NewCoin(vn.Denom, sdkmath.NewIntWithDecimal(1, 40)))})
+			kind += "(+failing-message)"
+		}
+		sp, err := govv1.NewMsgSubmitProposal(msgs, sdk.NewCoins(sdk.NewCoin(vn.Denom, sdkmath.NewIntWithDecimal(10, 18))), a.Addr.String(), "", kind, "verif")
 		if err == nil && g.cosmos("gov.submit-params:"+kind, a, sp) {
 			id, _ := n.App.GovKeeper.GetProposalID(n.Ctx())
 			g.campID, g.campVoted, g.campKind = id-1, map[int]bool{}, kind
@@ -418,6 +445,10 @@ func (g *histGen) afterEndBlock() {
 		g.special[g.n.Height] = "param-change:" + g.campKind
 		g.constr["governance-param-change:"+g.campKind]++
 	}
+	if p.Status == govv1.StatusFailed {
+		g.special[g.n.Height] = "param-change-rolled-back:" + g.campKind
+		g.constr["governance-param-change-rolled-back"]++
+	}
 	g.campID = 0
 }
 
@@ -428,11 +459,49 @@ func (g *histGen) tx() {
 	val := n.Vals[rng.Intn(len(n.Vals))]
 	unit := sdkmath.NewInt(1_000_000_000_000_000)
 	amt := func(k int) sdk.Coin { return sdk.NewCoin(vn.Denom, unit.MulRaw(int64(rng.Intn(k)+1))) }
-	f := rng.Intn(43)
+	f := rng.Intn(46)
 	if g.boostRewardFees && rng.Intn(5) == 0 {
 		f = 28
 	}
 	switch {
+	case f == 43: // value aimed at module accounts: by an Ethereum transfer, by a contract call, as a self-destruct beneficiary, by bank messages
+		mods := []string{"distribution", "bonded_tokens_pool", "not_bonded_tokens_pool", "gov", "fee_collector", "evm", "erc20", "coinomics", "transfer"}
+		target := common.BytesToAddress(vn.ModuleAddr(mods[rng.Intn(len(mods))]))
+		switch rng.Intn(5) {
+		case 0:
+			if ok, _ := g.eth("evm.transfer-to-module-account", a, &target, int64(rng.Intn(1000)+1), nil, 100000); ok {
+				g.constr["module-account-received-evm-value"]++
+			}
+		case 1: // a contract forwards the value
+			init := evmasm.InitCode(nil, []evmasm.Step{evmasm.Transfer{To: target, Value: big.NewInt(int64(rng.Intn(500) + 1))}})
+			addr := vn.CreateAddress(a.Eth, n.EthNonce(a.Eth))
+			if ok, _ := g.eth("evm.deploy", a, nil, 0, init, 400000); ok {
+				g.contracts = append(g.contracts, addr)
+				if ok2, _ := g.eth("evm.contract-pays-module-account", a, &addr, 1000, []byte{1}, 300000); ok2 {
+					g.constr["module-account-received-evm-value"]++
+				}
+			}
+		case 2: // self-destruct with a module account as beneficiary
+			init := evmasm.InitCode(nil, []evmasm.Step{evmasm.SelfDestruct{To: target}})
+			addr := vn.CreateAddress(a.Eth, n.EthNonce(a.Eth))
+			if ok, _ := g.eth("evm.deploy", a, nil, 0, init, 400000); ok {
+				if ok2, _ := g.eth("evm.selfdestruct-to-module-account", a, &addr, int64(rng.Intn(900)+1), []byte{1}, 300000); ok2 {
+					g.constr["module-account-received-evm-value"]++
+				}
+			}
+		case 3:
+			g.cosmos("bank.send-to-module-account", a, banktypes.NewMsgSend(a.Addr, sdk.AccAddress(target.Bytes()), sdk.NewCoins(amt(10))))
+		default:
+			c := amt(10)
+			g.cosmos("bank.multisend-to-module-account", a, banktypes.NewMsgMultiSend([]banktypes.Input{{Address: a.Addr.String(), Coins: sdk.NewCoins(c)}}, []banktypes.Output{{Address: sdk.AccAddress(target.Bytes()).String(), Coins: sdk.NewCoins(c)}}))
+		}
+	case f == 44: // a creation whose constructor writes storage and returns no code: an account with storage and the empty code hash
+		init := common.FromHex("0x602a600055602b60015500")
+		addr := vn.CreateAddress(a.Eth, n.EthNonce(a.Eth))
+		if ok, _ := g.eth("evm.deploy-codeless-with-storage", a, nil, 0, init, 200000); ok {
+			g.contracts = append(g.contracts, addr)
+			g.constr["account-with-storage-and-no-code"]++
+		}
 	case f >= 40:
 		g.ibcTx(a, b)
 	case f < 3:
